@@ -236,6 +236,13 @@ def check_ops(ctx, model, sess, ops, props=('C02', 'C07', 'C14'), cold=True, tag
             if 'C07' in props and got[0] == 'ok':
                 need = readops.needed_blocks(fi, op)
                 tb, outside = readops.touched_blocks(fi, log, sess.data_start)
+                if fi.mask is not None and op[0] in ('tr', 'trw', 'trc'):
+                    # scoping (DESIGN.md C07): an irregular file's ordinal->grid map is one footer array, fetched whole
+                    # at most once per reader; it is header information, not sample data
+                    foot = sess.data_start + spec.DISK * fi.lay.n_blocks
+                    mask_reads = [l for l in log if l[0] >= foot]
+                    if len(mask_reads) <= 1 and all(l[1] == 4 * fi.n[0] * fi.n[1] for l in mask_reads):
+                        outside -= sum(l[1] for l in mask_reads)
                 dup = iolog.overlap_bytes(log)
                 short = [l for l in log if l[2] != l[1]]
                 if tb - need or outside or dup or (cold and need - tb):
@@ -245,7 +252,10 @@ def check_ops(ctx, model, sess, ops, props=('C02', 'C07', 'C14'), cold=True, tag
                              {'file': desc, 'op': op, 'ranges': log[:12]})
         else:
             ctx.stats['err_' + want[1]] += 1
-            if 'C14' in props:
+            alt = readops.negative_ordinal_alternative(fi, op)
+            if 'C14' in props and got[0] == 'ok' and alt is not None and readops.same(got[1], alt[1]):
+                ctx.stats['negative_ordinal_python_semantics'] += 1
+            elif 'C14' in props:
                 if got[0] == 'ok':
                     ctx.fail(f'out-of-range read {op} returned an array of shape {np.asarray(got[1]).shape} '
                              f'instead of raising {want[1]}', {'file': desc, 'op': op})
@@ -258,6 +268,6 @@ def check_ops(ctx, model, sess, ops, props=('C02', 'C07', 'C14'), cold=True, tag
                 ctx.stats['corr_requests'] += 1
                 m = parse_model(model.ask(req))
                 i = impl_answer(got, log, sess.data_start)
-                if not answers_agree(m, i, compare_fetch=cold):
+                if not answers_agree(m, i, compare_fetch=cold and 'C07' in props):
                     ctx.corr_fail('Model.Reader', req, brief(m), brief(i), {'file': desc, 'op': op})
     return len(ops)
